@@ -88,56 +88,59 @@ end field
 
 /-! ### the G formulas -/
 
-/-- **`psd_G_formulas`**: with `N0 = f·T0`:
+/-- **`psd_G_formulas`** (the returned row), with `N0 = f·T0`:
 `absacce`: `G1 = Amax²/(Q·π·f·ln N0)`, `G2 = G2max/(Q·π·f·ln N0)`, `G_b = var_test_b/((Q·π/2)·f)`;
-`pvelo`:   `G1 = Amax²·4π·f/(Q·ln N0)`, `G2 = G2max·4π·f/(Q·ln N0)`, `G_b = var_test_b·(4π/Q)·f`;
-`var_test_4 = √(Df4/Dt4)`, `var_test_8 = (Df8/Dt8)^(1/4)`, `var_test_12 = (Df12/Dt12)^(1/6)`. -/
+`pvelo`:   `G1 = Amax²·4π·f/(Q·ln N0)`, `G2 = G2max·4π·f/(Q·ln N0)`, `G_b = var_test_b·(8π/Q)·f`;
+`var_test_4 = √(Df4/Dt4)/k`, `var_test_8 = (Df8/Dt8)^(1/4)/k`, `var_test_12 = (Df12/Dt12)^(1/6)/k` with
+the `Dt_b` the code solves with and `k = 1` (`absacce`), `k = 2` (`pvelo`). -/
 theorem psd_G_formulas (resp : Resp) (Q f T0 am g2m df4 df8 df12 : ℝ) :
-    let p := psdRow resp Q f T0 am g2m df4 df8 df12
+    let p := psdOut resp Q f T0 am g2m df4 df8 df12
     let L := Real.log (f * T0)
     (match resp with
       | .absacce => p.g1 = am * am / (Q * Real.pi * f * L) ∧ p.g2 = g2m / (Q * Real.pi * f * L) ∧
           p.g4 = p.v4 / ((Q * Real.pi / 2) * f) ∧ p.g8 = p.v8 / ((Q * Real.pi / 2) * f) ∧
-          p.g12 = p.v12 / ((Q * Real.pi / 2) * f)
+          p.g12 = p.v12 / ((Q * Real.pi / 2) * f) ∧
+          p.v4 = Real.sqrt (df4 / p.dt4) ∧ p.v8 = (df8 / p.dt8) ^ ((1 : ℝ) / 4) ∧
+          p.v12 = (df12 / p.dt12) ^ ((1 : ℝ) / 6)
       | .pvelo => p.g1 = (am * am * 4 * Real.pi * f) / (Q * L) ∧ p.g2 = (g2m * 4 * Real.pi * f) / (Q * L) ∧
-          p.g4 = p.v4 * ((4 * Real.pi / Q) * f) ∧ p.g8 = p.v8 * ((4 * Real.pi / Q) * f) ∧
-          p.g12 = p.v12 * ((4 * Real.pi / Q) * f)) ∧
-      p.v4 = Real.sqrt (df4 / p.dt4) ∧ p.v8 = (df8 / p.dt8) ^ ((1 : ℝ) / 4) ∧
-      p.v12 = (df12 / p.dt12) ^ ((1 : ℝ) / 6) := by
+          p.g4 = p.v4 * ((8 * Real.pi / Q) * f) ∧ p.g8 = p.v8 * ((8 * Real.pi / Q) * f) ∧
+          p.g12 = p.v12 * ((8 * Real.pi / Q) * f) ∧
+          p.v4 = Real.sqrt (df4 / p.dt4) / 2 ∧ p.v8 = (df8 / p.dt8) ^ ((1 : ℝ) / 4) / 2 ∧
+          p.v12 = (df12 / p.dt12) ^ ((1 : ℝ) / 6) / 2) := by
   intro p L
   cases resp
-  · refine ⟨⟨?_, ?_, ?_, ?_, ?_⟩, ?_, ?_, ?_⟩ <;>
-      simp only [p, L, psdRow, log_def, sqrt_def, pow_def, pi_def] <;> push_cast <;> rfl
-  · refine ⟨⟨?_, ?_, ?_, ?_, ?_⟩, ?_, ?_, ?_⟩ <;>
-      simp only [p, L, psdRow, log_def, sqrt_def, pow_def, pi_def] <;> push_cast <;> rfl
+  · refine ⟨?_, ?_, ?_, ?_, ?_, ?_, ?_, ?_⟩ <;>
+      simp only [p, L, psdOut, psdRow, log_def, sqrt_def, pow_def, pi_def] <;> push_cast <;> rfl
+  · refine ⟨?_, ?_, ?_, ?_, ?_, ?_, ?_, ?_⟩ <;>
+      simp only [p, L, psdOut, psdRow, log_def, sqrt_def, pow_def, pi_def] <;> push_cast <;> first | rfl | ring
 
 /-- **`Q` for a fixed cycle table**: all five PSDs are inversely proportional to `Q`; the peak
 amplitudes, `var_test` and `di_test` do not depend on it.  (The cycle table itself depends on `Q`
 through the SDOF filter; this is the bookkeeping part only.) -/
 theorem psd_inverse_in_Q (resp : Resp) (k Q f T0 am g2m df4 df8 df12 : ℝ) (hk : 0 < k) (hQ : 0 < Q)
     (hf : 0 < f) (hL : Real.log (f * T0) ≠ 0) :
-    let p := psdRow resp Q f T0 am g2m df4 df8 df12
-    let q := psdRow resp (k * Q) f T0 am g2m df4 df8 df12
+    let p := psdOut resp Q f T0 am g2m df4 df8 df12
+    let q := psdOut resp (k * Q) f T0 am g2m df4 df8 df12
     q.g1 = p.g1 / k ∧ q.g2 = p.g2 / k ∧ q.g4 = p.g4 / k ∧ q.g8 = p.g8 / k ∧ q.g12 = p.g12 / k ∧
       q.v4 = p.v4 ∧ q.v8 = p.v8 ∧ q.v12 = p.v12 ∧ q.dto4 = p.dto4 ∧ q.dto8 = p.dto8 ∧ q.dto12 = p.dto12 := by
   intro p q
   have hpi := Real.pi_pos
   cases resp
   · refine ⟨?_, ?_, ?_, ?_, ?_, ?_, ?_, ?_, ?_, ?_, ?_⟩ <;>
-      simp only [p, q, psdRow, log_def, sqrt_def, pow_def, pi_def] <;> push_cast <;> field_simp
+      simp only [p, q, psdOut, psdRow, log_def, sqrt_def, pow_def, pi_def] <;> push_cast <;> field_simp
   · refine ⟨?_, ?_, ?_, ?_, ?_, ?_, ?_, ?_, ?_, ?_, ?_⟩ <;>
-      simp only [p, q, psdRow, log_def, sqrt_def, pow_def, pi_def] <;> push_cast <;> field_simp
+      simp only [p, q, psdOut, psdRow, log_def, sqrt_def, pow_def, pi_def] <;> push_cast <;> field_simp
 
 /-- **the `resp` switch for a fixed table**: `G1` and `G2` of `pvelo` are those of `absacce` times
 `(2πf)²` (pseudo-velocity = acceleration / ω). -/
 theorem resp_switch_G1_G2 (Q f T0 am g2m df4 df8 df12 : ℝ) (hQ : 0 < Q) (hf : 0 < f)
     (hL : Real.log (f * T0) ≠ 0) :
-    let a := psdRow .absacce Q f T0 am g2m df4 df8 df12
-    let v := psdRow .pvelo Q f T0 am g2m df4 df8 df12
+    let a := psdOut .absacce Q f T0 am g2m df4 df8 df12
+    let v := psdOut .pvelo Q f T0 am g2m df4 df8 df12
     v.g1 = (2 * Real.pi * f) ^ 2 * a.g1 ∧ v.g2 = (2 * Real.pi * f) ^ 2 * a.g2 := by
   intro a v
   have hpi := Real.pi_pos
-  simp only [a, v, psdRow, log_def, pi_def]
+  simp only [a, v, psdOut, psdRow, log_def, pi_def]
   push_cast
   constructor <;> field_simp <;> ring
 
